@@ -146,6 +146,9 @@ func verifIntrinsic(in *Interp, fn *ssa.Function, args []Value, caller *frame, s
 		// race detector)
 		in.watchShared++
 		in.sharedSeen = nil
+		if in.watchShared == 1 {
+			in.sharedLimit = in.nextID // everything allocated so far is shared between the evaluations f stands for
+		}
 		func() {
 			defer func() { in.watchShared-- }()
 			in.call(args[0], nil, caller, site)
